@@ -69,7 +69,7 @@ CLAIMED = {
                 'Freshness: the id counter is ghost state threaded through the renaming family (next_id moves it up by one: complete Kani harness on the real static), so every id of a renamed clause lies above the counter as it was and up to the counter as it is (get_rule #ids_fresh, #ids_interval). '
                 'In the search (unit solver_ids: overlay contracts on the verbatim bodies of next_solution, next_solution_and / _or / _bip, make_solution_node, make_base_node, set_head_node, over the node heap with the counter as a ghost field) every variable id referenced from the search state - '
                 'goals, remaining operands and bindings of every solution node, and every answer - is at most the counter before and after every request; so the ids of a fresh clause copy are in use nowhere else in the search, and the rewinding of the counter after a failed head unification gives back ids that nothing refers to.',
-        'note': "Trusted: obeys_key_model::<String>() for HashMap<String,_> (T2), next_id's contract in Verus (assumed there, proved by Kani), T1, T4, T5. RELATIVE TO (assumed in unit solver_ids): the preconditions of get_rule at the solver's call site (the predicate exists, the stored rules are well formed; unify's preconditions are proved at its call sites in unit solver_wf, C08), append / functor / include / exclude introduce no variable of their own (proved for the comparisons and count), the query was built in the current counter epoch. Not covered: termination of the recursion.",
+        'note': "Trusted: obeys_key_model::<String>() for HashMap<String,_> (T2), next_id's contract in Verus (assumed there, proved by Kani), T1, T4, T5. RELATIVE TO (assumed in unit solver_ids): the preconditions of get_rule at the solver's call site (the predicate exists, the stored rules are well formed; unify's preconditions are proved at its call sites in unit solver_wf, C08), the built-in predicates' preconditions on the shape of their arguments (that they introduce no variable of their own is proved for all ten, in their units), the query was built in the current counter epoch. Not covered: termination of the recursion.",
         'technique': 'contract-based deductive verification (Verus) of extracted real code (renaming family; id invariant of the search over a ghost heap model) + Kani harness for the id counter',
         'design_ref': 'DESIGN.md 5/C10, 8.30, 8.36',
     },
